@@ -290,7 +290,7 @@ pub fn run(ctx: &mut Ctx) {
     crate::reference::vlq::self_check(&mut srng, 2000);
     crate::reference::mappings::self_check(&mut srng, 500);
 
-    let total = ctx.size(150_000, 6_000_000);
+    let total = ctx.size(600_000, 6_000_000);
     for n in ctx.cases("maps", total) {
         let mut rng = ctx.begin("maps", n);
         ctx.eval();
